@@ -9,7 +9,7 @@ Init == l = 1
 RowKeys(r) ==
   LET names == r.names
       n == r.name
-  IN UNION { (IF r.eq[j] = Eq(n, names[j]) THEN {}
+  IN UNION { (IF r.eq[j] = Eq(n, names[j]) \/ Soft(n, names[j]) THEN {}
               ELSE IF r.eq[j] THEN {"C18/unequal_payloads_compare_equal:" \o VariantOfName(n)} ELSE {"C18/equal_payloads_compare_unequal:" \o VariantOfName(n)})
              \cup (IF r.eq[j] = r.eq_rev[j] THEN {} ELSE {"C18/not_symmetric:" \o VariantOfName(n)})
              \cup (IF r.eq[j] /\ ~r.hash_eq[j] THEN {"C18/equal_values_hash_differently:" \o VariantOfName(n)} ELSE {})
@@ -23,6 +23,7 @@ MatrixKeys(r) ==
   (IF \A i \in 1..n : \A j \in 1..n : m[i][j] = m[j][i] THEN {} ELSE {"C18/not_symmetric"})
   \cup (IF \A i \in 1..n : \A j \in 1..n : m[i][j] => \A k \in 1..n : m[j][k] => m[i][k] THEN {} ELSE {"C18/not_transitive"})
 Verdict(r) == [id |-> r.id, keys |-> IF r.kind = "row" THEN RowKeys(r) ELSE MatrixKeys(r),
+               exact |-> r.kind # "row" \/ \A j \in DOMAIN r.names : r.eq[j] = Eq(r.name, r.names[j]),
                nt |-> r.kind = "matrix" \/ \E j \in DOMAIN r.eq : r.eq[j] /\ j # r.i + 1]
 Step == /\ l <= Len(Rec)
         /\ PrintT(<<"R", ToJson(Verdict(Rec[l]))>>)
